@@ -561,6 +561,43 @@ def search(res, tier, boost=False):
                     if abs(got - want) > 1e-11 * h + 4e-16 * (abs(a) + h):
                         fail('C15:float-exact1:%s:%s' % (name, sname), degree=k, interval=[a, b], got=float(got), want=want)
                         break
+    # hand-typed rules whose nodes / weights are Python ints or int arrays (closed Newton-Cotes rules have the nodes 0 and 1;
+    # users type `QuadScheme1D([0, 1], [0.5, 0.5])`): mapping to non-integer targets must not inherit an integer dtype
+    int_rules = [('trapezoid-int-nodes', [0, 1], [0.5, 0.5], 1),
+                 ('trapezoid-int-array', np.array([0, 1]), np.array([0.5, 0.5]), 1),
+                 ('simpson-scaled', np.array([0, 1, 2]) / 2, np.array([1, 4, 1]) / 6, 3),
+                 ('endpoint-int-weights', [0, 1], [1, 0], 0)]
+    for rname, pts, wts, deg in int_rules:
+        b1 = Q.QuadScheme1D(pts, wts)
+        b2 = Q.ProductScheme2D(b1)
+        b3 = Q.ProductScheme3D(b1)
+        fam = [('1d', b1, deg, 1), ('1d-mirror', b1.mirror(), deg, 1), ('product2', b2, deg, 2), ('product2-mirror_x', b2.mirror_x(), deg, 2),
+               ('duffy2', Q.DuffyScheme2D(b2, False), deg - 1, 2), ('product3', b3, deg, 3), ('product3-mirror_z', b3.mirror_z(), deg, 3),
+               ('touch3', Q.DuffySchemeTouch3D(b3), deg - 2, 3)]
+        for sname, sch, dmax, dim in fam:
+            if dmax < 0:
+                continue      # the Duffy Jacobian itself is beyond the base rule: not even the measure is claimed
+            for _ in range(2 if tier == 'quick' else 8):
+                lo = [rng.choice([0.25, 0.5, -0.75, 1.5]) for _ in range(dim)]
+                hs_ = [rng.choice([0.5, 0.25, 1.0, 1.75]) for _ in range(dim)]
+                box = []
+                for l_, h_ in zip(lo, hs_):
+                    box += [l_, l_ + h_]
+                vol = float(np.prod(hs_))
+                exps = [tuple(0 for _ in range(dim))]
+                if dmax >= 1:
+                    exps += [tuple(1 if j == i else 0 for j in range(dim)) for i in range(dim)]
+                for e in exps:
+                    if dim == 1:
+                        got = sch.integrate(lambda x: ((x - lo[0]) / hs_[0])**e[0], *box)
+                    else:
+                        got = sch.integrate(lambda x: np.prod([((x[i] - lo[i]) / hs_[i])**e[i] for i in range(dim)], axis=0), *box)
+                    want = vol / float(np.prod([k + 1 for k in e]))
+                    res.count(('int-dtype', rname, sname, e, tuple(box)))
+                    if abs(float(got) - want) > 1e-13 * vol:
+                        fail('C15:int-typed-rule:%s:%s' % (rname, sname), exponents=list(e), box=box, got=float(got), want=want,
+                             note='rule typed with integer nodes / weights, mapped to a non-integer target')
+                        break
     # float stream, 3-D: measure and low-degree exactness of the two 3-D Duffy schemes on boxes at an offset
     g5 = Q.gauss_quadrature_scheme(5)
     p3 = Q.ProductScheme3D(g5)
